@@ -161,6 +161,9 @@ LEVEL_TEXT = ("proof: span membership of every emitted solution, the non-negativ
               "on dyadic inputs and within 2^-40 otherwise")
 
 TOL = Fraction(1, 2**40)
+TOL32 = Fraction(1, 2**18)          # float32 archives: the solution point and every emitted row are float32
+CUR = {"tol": TOL}                  # tolerance of the case being run (set by run_case)
+NP_DT = {"f32": np.float32, "f64": np.float64}
 
 
 def fr(x):
@@ -194,7 +197,7 @@ def close(a, b, scale, exact):
             if d != 0:
                 return False, d
         else:
-            r = d / (TOL * scale)
+            r = d / (CUR["tol"] * scale)
             worst = max(worst, r)
             if r > 1:
                 return False, r
@@ -386,7 +389,8 @@ def run_gae(case, ctx):
     n, md, batch = case["n"], case["mdim"], case["batch"]
     m = md + 1
     exact = case["exact"]
-    arch = GridArchive(solution_dim=n, dims=[3] * md, ranges=[(-4, 4)] * md, seed=case["aseed"])
+    arch = GridArchive(solution_dim=n, dims=[3] * md, ranges=[(-4, 4)] * md, seed=case["aseed"],
+                       **({"dtype": np.float32} if case.get("sd") == "f32" else {}))
     script = {"stop": False, "coeffs": [[0.0] * m] * batch, "perm": list(range(batch))}
     hold = {}
 
@@ -424,6 +428,7 @@ def run_gae(case, ctx):
                 f"opt={'ext' if okind == 'adam' else 'ascent:' + q(Fraction(lr))} x0={rowtok(frow(x0))}")
         have_grad = False
         zero_jac = False
+        jst_gae = jac_last = None
         adam_fresh = True   # no step since the last reset
         last_ask = None
 
@@ -433,8 +438,14 @@ def run_gae(case, ctx):
                 raise ValueError(f"ask_dqd returned shape {getattr(t, 'shape', None)}")
             return np.array(t[0], dtype=np.float64, copy=True)
 
+        # magnitude of the values that went into the solution point since it was last SET (x0 / an elite): a step
+        # such as theta + lr*(mean - theta) with |theta| = 1e144 and a small mean cancels, and what is left differs
+        # from the exact value by rounding at the OLD magnitude; every comparison of the solution point is relative
+        # to this running scale (it stays near 1 unless huge gradients were branched along and told back)
+        hist = {"scale": Fraction(1)}
+
         def scale_of(*vecs):
-            s = Fraction(1)
+            s = hist["scale"]
             for v in vecs:
                 for x in v:
                     s = max(s, abs(x))
@@ -493,6 +504,15 @@ def run_gae(case, ctx):
                         return Failure("corr", f"{where}: supplied norms rejected by the model ({mres})")
                     have_grad = True
                     zero_jac = not np.any(jac)
+                    # the gradients as the emitter must now hold them, on exact rationals: g / (|g| + epsilon) with the
+                    # Euclidean norm of the SUPPLIED (float64) gradient when normalisation is on, else g itself
+                    jst_gae = []
+                    jac_last = jac
+                    for g in jac:
+                        d_ = (fr(np.linalg.norm(g)) + Fraction(eps)) if case["norm"] else Fraction(1)
+                        jst_gae.append([fr(v) / d_ for v in g])
+                    if case["norm"] and any(np.any(g) and float(np.linalg.norm(g)) > 1e18 for g in jac):
+                        ctx.count("gae:normalised-gradient-with-norm>1e18")
                     ctx.count("gae:tell_dqd")
                 continue
             if o == "ask":
@@ -527,7 +547,19 @@ def run_gae(case, ctx):
                     return Failure("oracle", f"{where}: zero Jacobian, yet ask() != theta")
                 mrows = parse_rows(mres)
                 for i in range(batch):
-                    ok, w = close(frow(out[i]), mrows[i], scale_of(mrows[i], frow(th0)), exact and not case["norm"])
+                    # ---- oracle: the row is theta + sum_j c_j * (stored gradient j), read on exact rationals
+                    cf = [Fraction(v) for v in script["coeffs"][i]]
+                    tf = frow(th0)
+                    terms = [[cf[j] * jst_gae[j][k] for j in range(m)] for k in range(n)]
+                    want = [tf[k] + sum(terms[k]) for k in range(n)]
+                    sc_ = max([Fraction(1)] + [abs(v) for v in tf] + [abs(t) for tk in terms for t in tk])
+                    if not close(frow(out[i]), want, sc_, exact and not case["norm"])[0]:
+                        return Failure("oracle", f"{where}: row {i} = {out[i].tolist()} is not theta + sum_j c_j * g_j"
+                                       f"{'/(|g_j| + epsilon)' if case['norm'] else ''} = {[float(v) for v in want]} "
+                                       f"(theta {th0.tolist()}, coefficients {script['coeffs'][i]}, gradient norms "
+                                       f"{[float(np.linalg.norm(g)) for g in jac_last]})")
+                    ok, w = close(frow(out[i]), mrows[i], max(sc_, scale_of(mrows[i])),
+                                  exact and not case["norm"])
                     if not ok:
                         return Failure("corr", f"{where}: row {i} impl={out[i].tolist()} "
                                        f"model={[float(v) for v in mrows[i]]} (theta + sum c_j J_j)")
@@ -567,6 +599,13 @@ def run_gae(case, ctx):
                 except Exception as ex:  # pylint: disable=broad-except
                     return Failure("oracle", f"{where}: raised {type(ex).__name__}: {str(ex)[:80]}")
                 th1 = theta_now()
+                hist_next = hist["scale"]
+                if have_grad:
+                    hist["scale"] = max([hist["scale"]] + [abs(v) for v in frow(th0)] + [abs(v) for v in frow(th1)] +
+                                        [abs(fr(v)) for r in sols for v in r])
+                    # after a restart the point is re-centred on an elite, i.e. set exactly -- but the comparisons of
+                    # THIS tell (gradient step, theta before the re-centring) still live at the old magnitude
+                    hist_next = Fraction(1) if em.restarts != rst0 else hist["scale"]
                 new = sum(1 for s in status if s != 0)
                 npar = new if case["sel"] == "filter" else batch // 2
                 # ---- oracle
@@ -619,7 +658,7 @@ def run_gae(case, ctx):
                                 sc = scale_of(a, b, c)
                                 if okind in ("spy", "ascent") and 0 < lr <= 1:
                                     for k in range(n):
-                                        lo_, hi_ = min(a[k], c[k]) - TOL * sc, max(a[k], c[k]) + TOL * sc
+                                        lo_, hi_ = min(a[k], c[k]) - CUR["tol"] * sc, max(a[k], c[k]) + CUR["tol"] * sc
                                         if not lo_ <= b[k] <= hi_:
                                             return Failure("oracle", f"{where}: theta'[{k}]={float(b[k])} not between "
                                                            f"theta={float(a[k])} and the mean={float(c[k])}")
@@ -746,6 +785,7 @@ def run_gae(case, ctx):
                         adam_fresh = False
                 if okind == "adam" and have_grad and res != "ok" and npar > 0:
                     adam_fresh = False
+                hist["scale"] = hist_next
                 ctx.count("gae:tell")
                 continue
             raise ValueError(f"unknown op {o}")
@@ -764,7 +804,8 @@ def run_gop(case, ctx):
     n, md, batch = case["n"], case["mdim"], case["batch"]
     m = md + 1
     mg, norm = case["mg"], case["norm"]
-    arch = GridArchive(solution_dim=n, dims=[3] * md, ranges=[(-4, 4)] * md, seed=case["aseed"])
+    arch = GridArchive(solution_dim=n, dims=[3] * md, ranges=[(-4, 4)] * md, seed=case["aseed"],
+                       **({"dtype": np.float32} if case.get("sd") == "f32" else {}))
     x0 = [float(Fraction(v)) for v in case["x0"]]
     sig, sg, lsig = (float(Fraction(case[k])) for k in ("sigma", "sigma_g", "line_sigma"))
     eps = float(Fraction(case["eps"]))
@@ -1010,7 +1051,7 @@ def run_gop(case, ctx):
                             d = np.array([float(orow[i][k] - pr[k]) for k in range(n)])
                             coef = np.linalg.lstsq(A, d, rcond=None)[0]
                             resid = float(np.linalg.norm(A @ coef - d))
-                            if resid > 1e-9 * float(sc):
+                            if resid > (1e-5 if case.get("sd") == "f32" else 1e-9) * float(sc):
                                 return Failure("oracle", f"{where}: row {i} minus the parent returned by ask_dqd is not "
                                                f"in the span of the supplied gradients (residual {resid:.3g}); returned "
                                                f"parent {parents[i].tolist()}, row {out[i].tolist()}")
@@ -1035,6 +1076,7 @@ def run_gop(case, ctx):
 
 def run_case(case, ctx):
     warnings.simplefilter("ignore")
+    CUR["tol"] = TOL32 if case.get("sd") == "f32" else TOL
     return run_gae(case, ctx) if case["emitter"] == "gae" else run_gop(case, ctx)
 
 
@@ -1064,6 +1106,24 @@ def gen_jac(rng, m, n, kind):
         return rows
     if kind == "small":   # gradient norms comparable with (non-default) normalisation epsilons
         return [[f"{rng.randint(-8, 8)}/256" for _ in range(n)] for _ in range(m)]
+    if kind in ("huge32", "huge64", "tiny", "eps-scale"):
+        # finite gradients far from 1: the Euclidean norm must be taken in float64 whatever the archive's dtype
+        #  huge32   entries 1e15 .. 1e30: the squared norm overflows float32 from ~1.8e19 on
+        #  huge64   entries 1e100 .. 1e150: the squared norm is still finite in float64
+        #  tiny     entries ~1e-30: `+ epsilon` dominates the divisor
+        #  eps-scale entries of the order of the normalisation epsilon itself
+        lo_e, hi_e = {"huge32": (15, 30), "huge64": (100, 150), "tiny": (-32, -28), "eps-scale": (-9, -1)}[kind]
+        rows = []
+        for _ in range(m):
+            e = rng.randint(lo_e, hi_e)
+            row = [rng.choice([1.0, -2.0, 3.0, 0.6, -0.8, 1.5, 0.0, 0.25]) * 10.0**(e - rng.choice([0, 0, 1]))
+                   for _ in range(n)]
+            if not any(row):
+                row[rng.randrange(n)] = 10.0**e
+            rows.append(row)
+        if rng.random() < 0.2:
+            rows[rng.randrange(m)] = [0.0] * n
+        return [[q(Fraction(v)) for v in r] for r in rows]
     if kind == "float":
         return [[repr(rng.gauss(0, 2)) for _ in range(n)] for _ in range(m)]
     return [[dy(rng, 8, 2) for _ in range(n)] for _ in range(m)]
@@ -1255,6 +1315,78 @@ def gen_gop(rng):
     return case
 
 
+def scale_kinds(sd):
+    return ["huge32", "huge32", "tiny", "eps-scale"] + (["huge64", "huge64"] if sd == "f64" else [])
+
+
+def make_scale_gen(emitter):
+    """gradient-scale x dtype profile: float32 and float64 archives, normalisation on and off, gradients that are
+    huge (squared norm beyond float32 / near the float64 limit), tiny, or of the order of epsilon.  The first cases of
+    every run are fixed profiles so that each combination occurs on every run."""
+    it = {"i": 0}
+    forced = [("f32", True, "huge32"), ("f32", False, "huge32"), ("f64", True, "huge64"), ("f64", True, "huge32"),
+              ("f32", True, "tiny"), ("f32", True, "eps-scale"), ("f64", False, "huge64"), ("f64", True, "eps-scale")]
+
+    def gen(rng):
+        i = it["i"]
+        it["i"] += 1
+        if i < len(forced):
+            sd, norm, kind0 = forced[i]
+        else:
+            sd, norm = rng.choice(["f32", "f32", "f64"]), rng.random() < 0.6
+            kind0 = None
+        pick = lambda: kind0 if (kind0 and rng.random() < 0.8) else rng.choice(scale_kinds(sd))
+        if emitter == "gae":
+            case = gen_gae(rng, "gae-rounded")
+            if sd == "f32" or rng.random() < 0.7:
+                case["opt"] = rng.choice(["spy:1/2", "spy:1", "ascent:1/4", "spy:1/4"])   # Adam only on float64
+                case.pop("l2", None)
+            m, n = case["mdim"] + 1, case["n"]
+            have = False
+            for op in case["ops"]:
+                if op["op"] == "tell_dqd" and len(op["jac"]) == m and all(len(r) == n for r in op["jac"]):
+                    op["jac"] = gen_jac(rng, m, n, pick())
+                    have = True
+            if not have:
+                case["ops"].insert(1, {"op": "tell_dqd", "jac": gen_jac(rng, m, n, pick())})
+                case["ops"].insert(2, {"op": "ask", "coeffs": [[dy(rng, 8, 2) for _ in range(m)]
+                                                               for _ in range(case["batch"])]})
+        else:
+            case = gen_gop(rng)
+            while case.get("init") or case["batch"] > 8:
+                case = gen_gop(rng)      # x0-configured emitters (inserting 1e150-sized batches is not the point)
+            m, n = case["mdim"] + 1, case["n"]
+            for op in case["ops"]:
+                if op["op"] == "tell_dqd":
+                    op["jacs"] = [gen_jac(rng, m, n, pick()) for _ in range(case["batch"])]
+                    for a in case["ops"]:
+                        a.pop("probe_obj", None)
+        case["sd"], case["norm"], case["exact"] = sd, norm, False
+        case["eps"] = rng.choice(["1/100000000", "1/100000000", "1/1024", "1/8"])
+        case["ops"][0] = {"op": "cfg", "tag": f"scale/{emitter}/{sd}/{norm}/{kind0}/{case['seed']}"}
+        return case
+
+    return gen
+
+
+def make_gop_gen():
+    """the gop stratum; its first cases are fixed shapes drawn on EVERY run: a one-dimensional solution space with
+    several rows, for both measure_gradients settings (where a squeeze or a broadcast collapses (batch, 1) arrays)"""
+    it = {"i": 0}
+
+    def gen(rng):
+        i = it["i"]
+        it["i"] += 1
+        case = gen_gop(rng)
+        if i < 4:
+            while case["n"] != 1 or case["batch"] < 2 or case["batch"] > 8 or case["mg"] != (i % 2 == 0) or \
+                    case.get("init"):
+                case = gen_gop(rng)
+        return case
+
+    return gen
+
+
 def nontrivial(case):
     have = False
     zero = True
@@ -1277,7 +1409,11 @@ def run(ctx):
                                  ("gae-zero-parents", 80, 3000, 4, 50), ("gae-refusal", 60, 2000, 3, 35)]:
         ctx.explore(name, (lambda rng, name=name: gen_gae(rng, name)), rc, ctx.n(nq, nt), nontrivial=nontrivial,
                     time_budget=tq if quick else tt)
-    ctx.explore("gop", gen_gop, rc, ctx.n(220, 8000), nontrivial=nontrivial, time_budget=9 if quick else 110)
+    ctx.explore("gop", make_gop_gen(), rc, ctx.n(220, 8000), nontrivial=nontrivial, time_budget=9 if quick else 110)
+    ctx.explore("gae-scale", make_scale_gen("gae"), rc, ctx.n(60, 2500), nontrivial=nontrivial,
+                time_budget=4 if quick else 45)
+    ctx.explore("gop-scale", make_scale_gen("gop"), rc, ctx.n(60, 2500), nontrivial=nontrivial,
+                time_budget=4 if quick else 45)
 
 
 def replay(ctx, case):
